@@ -43,6 +43,10 @@ type TunParams struct {
 	MintXFF  string   `json:"mintXFF"`
 	UseIP    string   `json:"useIP"`
 	UseXFF   string   `json:"useXFF"`
+	// legacy: where the RDG_OUT_DATA request comes from when that is not where the RDG_IN_DATA request comes from
+	OutElsewhere bool   `json:"outElsewhere,omitempty"`
+	OutIP        string `json:"outIP,omitempty"`
+	OutXFF       string `json:"outXFF,omitempty"`
 	// Cid: connection identifier to present instead of a fresh unique one (websocket only): tunnels of different
 	// users that follow each other on one gateway may well carry the same identifier
 	Cid string `json:"cid,omitempty"`
